@@ -192,6 +192,10 @@ func (f Frame) payloadOffset() int {
 }
 
 func (f *Frame) setPayloadLength(n int) *Frame {
+	if len(*f) < frameMaxHeaderLength {
+		// A reused frame may have been shrunk to a short payload; the extended length is written into the full header.
+		*f = util.ExtendSlice(*f, frameMaxHeaderLength)
+	}
 	(*f)[1] &= (1 << 7)
 
 	if n > (1<<16 - 1) {
